@@ -443,10 +443,16 @@ func (self Node) Interface(opts *Options) (interface{}, error) {
 		}
 		var ret1 map[thrift.FieldID]interface{}
 		var ret2 map[int]interface{}
+		// a field takes at least 4 bytes (type, id and value):
+		// don't reserve room for more fields than the bytes of this struct can hold
+		size := DefaultNodeSliceCap
+		if n := self.l / 4; n < size {
+			size = n
+		}
 		if opts.MapStructById {
-			ret1 = make(map[thrift.FieldID]interface{}, DefaultNodeSliceCap)
+			ret1 = make(map[thrift.FieldID]interface{}, size)
 		} else {
-			ret2 = make(map[int]interface{}, DefaultNodeSliceCap)
+			ret2 = make(map[int]interface{}, size)
 		}
 		for it.HasNext() {
 			id, t, s, e := it.Next(opts.UseNativeSkip)
